@@ -98,7 +98,7 @@ def hostile(tier, seed):
         dict(opts={"curvature_smoothing": "smoothnl"}), dict(opts={"shiftedmetric": False}), dict(opts={"start_at_upper_outer": True}),
     ]  # fmt: skip
     if tier == "quick":
-        soft = soft[:12]
+        soft = soft[:13]  # up to and including xpoint_refine_maxits=1 (F33)
     for k, kw in enumerate(soft):
         api("soft-%d" % k, **kw)
     two_point = cases.tok("lsn", tag="hostile-two-point-wall")
